@@ -232,7 +232,7 @@ struct CurOp {                 // context of the op currently executing in a tas
     size_t os_req = 0;         // system-source requests so far in this op
     // OS request state
     bool os_active = false, os_auto = false; size_t os_pos = 0; int os_terminal = -1; // -1 none, 0 success, >0 errno
-    int os_calls = 0; int os_extra = 0;
+    int os_calls = 0; int os_extra = 0; long req_emitted = -1;
     uint8_t os_last_ok[32]; bool os_have_ok = false;
     int fds_open = 0; int fd_next = 0; int opens = 0, closes = 0;
     bool in_call = false;      // a library call is on this task's stack
